@@ -30,7 +30,7 @@ SafeInt Converter<SafeInt>::getValue(ptrdiff_t val) {
 
 template<>
 SafeInt Converter<SafeInt>::negate(SafeInt const & val) {
-    return SafeInt(-(val.value() + 1));
+    return SafeInt(-1 - val.value()); // == -(val + 1), but cannot overflow for any val
 }
 
 template<>
